@@ -222,7 +222,8 @@ def run_job(job, tier, seed, known):
         for pr in reg['props']:
             if pr['status'] == 'FAILURE':
                 kk, ident = classify(pr)
-                if ident == k.get('assertion') or (kk != 'assert' and k.get('assertion') in (pr.get('description') or '')):
+                ka = k.get('assertion')
+                if (ka == '*' and kk == 'assert') or ident == ka or (kk != 'assert' and ka != '*' and ka in (pr.get('description') or '')):
                     hit = (pr, kk, ident)
                     break
         if hit:
@@ -354,6 +355,7 @@ def replay(path):
     rp = json.load(open(path))
     j = P.Job(rp['property'], rp['job'], rp['harness'], defs=rp.get('defs'), link=rp.get('link', ()))
     os.makedirs(j.dir, exist_ok=True)
+    shutil.rmtree(os.path.join(P.BUILD, rp['property'], 'native'), ignore_errors=True)   # always rebuilt from /repo's current tree
     exe = j.native_bin()
     rc, out, err = j.run_concrete(exe, rp['tape'])
     print(out)
